@@ -7,7 +7,7 @@
 (* and deletes applied.  One action per public call of diffdb.Database.    *)
 (*   db    : committed database contents    (set of <<key, value>>)        *)
 (*   eff   : db with the staged operations applied                         *)
-(*   snaps : snapshot id -> eff at the time of the snapshot                *)
+(*   snaps : (store object, snapshot id) -> eff at the time of the snapshot *)
 (***************************************************************************)
 EXTENDS Integers, Sequences, FiniteSets, SequencesExt, TLC
 
@@ -39,6 +39,37 @@ RangeR(m, p, s, e, limit, rev) ==
   StripAll(Take(Order({x \in m : LexLeq(p \o s, x[1]) /\ LexLeq(x[1], p \o e)}, rev), limit), Len(p))
 IterR(m, p, q, limit, rev) ==
   StripAll(Take(Order({x \in m : HasPrefix(x[1], p \o q)}, rev), limit), Len(p))
+
+\* key-only scans (db.IterateKey / Reader.IterateKey): the keys of the same prefix iteration
+KeysOf(s) == [i \in 1..Len(s) |-> s[i][1]]
+
+(* ---- snapshots -------------------------------------------------------------- *)
+(* A snapshot is taken through a store OBJECT (the root or any view derived from  *)
+(* it); ids are per object.  It holds the whole staged state (eff) of that       *)
+(* moment, whatever view took it, and restoring it through the same object gives *)
+(* back exactly that state.  The statement does not say whether an id stays      *)
+(* usable after it was restored, nor whether snapshots taken after the restored  *)
+(* one survive: snapshots are kept in `snaps` for ever (a later successful       *)
+(* restore must still return their state), while MustRestore lists the ones      *)
+(* whose restore may not fail: taken, not deleted, not yet restored, and no      *)
+(* snapshot older than them restored since.                                      *)
+SnapKey(obj, id) == <<obj, id>>
+AfterRestore(sure, snaps, k) == {x \in sure : snaps[x].n < snaps[k].n}
+
+(* ---- consumers ---------------------------------------------------------------- *)
+\* batchdb.NewWithPrefix(db, batch, P) as the writer of Commit: the staged state of the keys under `root` is written
+\* under P \o key.  If the keys under P mirrored the keys under root before, they mirror eff afterwards.
+Shift(m, root, P) == {<<P \o x[1], x[2]>> : x \in {y \in m : HasPrefix(y[1], root)}}
+BatchCommit(old, new, root, P) == {x \in old : ~HasPrefix(x[1], P)} \cup Shift(new, root, P)
+
+\* pkg/consensus/liskbft/util.go: parameters valid at height h = the entry with the largest 4-byte big-endian key <= h
+\* (Range(0, h, 1, reverse)); pruning below h keeps that entry and drops the older ones (Range(0, h, -1, forward))
+Zero4 == <<0, 0, 0, 0>>
+AtHeight(m, p, h) == LET r == RangeR(m, p, Zero4, h, 1, TRUE) IN IF Len(r) = 0 THEN -1 ELSE r[1][2]
+PruneBelow(m, p, h) ==
+  LET inr == {x \in m : LexLeq(p \o Zero4, x[1]) /\ LexLeq(x[1], p \o h)} IN
+  IF inr = {} THEN m
+  ELSE LET last == CHOOSE x \in inr : \A y \in inr : LexLeq(y[1], x[1]) IN m \ (inr \ {last})
 
 (* ---- diff returned by Commit: what must be undone to get db back ---------- *)
 DiffOf(old, new) ==
